@@ -65,11 +65,13 @@ class Lab:
                     raise RuntimeError("hook failed")
 
             def annotations(self):
-                return dict(lab.daemon_annotations)
+                # (annotations_stored: the application hands out the one dict it keeps, which is as legal as building a new one)
+                return lab.daemon_annotations if lab.annotations_stored else dict(lab.daemon_annotations)
         self.validator = validator
         self.hook_raises = False
         self.handshake_annotation = False
         self.daemon_annotations = {}
+        self.annotations_stored = False
         self.current_context = current_context
         if validator_install == "instance":
             scripted = LabDaemon.validateHandshake
